@@ -1,5 +1,5 @@
 (* C02 Bind parameters are exactly what the route pattern captured. *)
-Require Import Base Regex RegexProofs Route Tree TreeProofs SegProofs Router RouterProofs TreeAdd UrlPath Inverse.
+Require Import Base Regex RegexProofs Route Tree TreeProofs SegProofs Router RouterProofs TreeAdd UrlPath Inverse Parser ParseSound UnparseProofs.
 
 (* a regex-style segment: the values are the parts of the segment matched by each bind's own
    expression in full, literal pieces match literally (byte for byte), the parts concatenate to the
@@ -38,6 +38,18 @@ Proof. exact inverse_own_params. Qed.
 Theorem C02_names : forall ks segs ps, adm ks segs ps -> map fst ps = rbinds ks.
 Proof. exact adm_names. Qed.
 
+(* the reserved parameter: in the map the handlers get, "route" is the canonical text of the matched route -
+   the text that parses back to the route and is its own canonical form - and shadows a bind of that name;
+   every other name has the captured value *)
+Theorem C02_reserved_route : forall r ps,
+  plookup (deliver r ps) s_route = Some (render_route r) /\
+  (forall k, k <> s_route -> plookup (deliver r ps) k = plookup ps k) /\
+  (forall s, parse s = Some r -> parse (render_route r) = Some r).
+Proof.
+  intros r ps. split; [apply deliver_route|]. split; [intros k; apply deliver_other|].
+  intros s H. apply parse_render. exact (proj1 (parse_sound s r H)).
+Qed.
+
 Example C02_example :   (* /{a: /(x|y)z/}-{b: /w+/} on "xz-ww" gives a=xz, b=ww *)
   seg_match (KRegex [PBind [97]%N (Cat (Alt (lit_re [120]%N) (lit_re [121]%N)) (lit_re [122]%N));
                      PLit [45]%N; PBind [98]%N (plus (lit_re [119]%N))]) [120; 122; 45; 119; 119]%N
@@ -48,3 +60,4 @@ Redirect "assum/C02.1" Print Assumptions C02_regex_segment_values.
 Redirect "assum/C02.2" Print Assumptions C02_regex_segment_accepts.
 Redirect "assum/C02.3" Print Assumptions C02_delivered_values.
 Redirect "assum/C02.4" Print Assumptions C02_roundtrip.
+Redirect "assum/C02.9" Print Assumptions C02_reserved_route.
